@@ -212,12 +212,14 @@ CapNoop(r, n) == CapIdle /\ CapKind(r, n) \in {"err", "noop"} /\ UNCHANGED vars
 (* above (dl.parent = result under dl.lock) resp. to the child of the replaced layer          *)
 Flushed(fz) == [flat |-> Apply(kv.flat, fz.data), pid |-> fz.id, root |-> fz.root]
 
-CapStep ==
+(* `full` = combined.full(): the buffer exceeds its byte allowance after this merge.  The  *)
+(* replay harness fixes it per cap call (capst.full); a natural run decides it per step.     *)
+CapStepF(full) ==
   /\ ~CapIdle /\ capst.pending # <<>>
   /\ LET b        == Head(capst.pending)
          bot      == objs[b]
          combined == [n |-> buffer.n + 1, data |-> Merge(buffer.data, bot.diff)]
-         flush    == capst.full \/ capst.pc = "commit"
+         flush    == full \/ capst.pc = "commit"
          gen1     == disk.gen + 1
          newref   == [k |-> "disk", ref |-> gen1, root |-> bot.root]
          rest     == Tail(capst.pending)
@@ -233,6 +235,8 @@ CapStep ==
         /\ objs' = [o \in DOMAIN objs |-> IF o \in relink THEN [objs[o] EXCEPT !.par = newref] ELSE objs[o]]
         /\ capst' = [capst EXCEPT !.pending = rest]
   /\ UNCHANGED <<layers, lookup, descendants, readers, async>>
+
+CapStep == CapStepF(capst.full)
 
 (* background flush of the frozen buffer: one atomic batch (buffer.flush) *)
 FlushDone ==
